@@ -857,3 +857,20 @@ Proof.
   eexists. eexists. split; [vm_compute; reflexivity|]. split; [vm_compute; reflexivity|].
   split; vm_compute; reflexivity.
 Qed.
+
+(* listed finding dtd-apostrophe-value-in-apostrophe-quoted-entity: the premise [legal_dtd_raw]
+   of C16_reparse_dtd is needed — reference <!ENTITY a 'A'>, new value it's: the bytes
+   <!ENTITY a 'it's'> re-parse as Junk *)
+Definition da_ref : list C02BlocksDtd.block :=
+  [C02BlocksDtd.BEntity None (A [32]) (A [97]) (A [32]) 39%N (A [65]) []; dnl].
+Theorem C16_dtd_apostrophe_refuted :
+  exists name txt es,
+    DtdReparse.legal_dtd_raw (A [105;116;39;115]) = false /\
+    serialize DtdReparse.wrap_dtd name (number 0 (DtdShape.dcentries_of da_ref)) []
+              [(A [97], Some (A [105;116;39;115]))] = Ok txt /\
+    walk_dtd txt = Ok es /\ filter (is_kind KJunk) es <> [].
+Proof.
+  exists (s [102;46;100;116;100]). eexists. eexists.
+  split; [vm_compute; reflexivity|]. split; [vm_compute; reflexivity|].
+  split; [vm_compute; reflexivity|]. vm_compute. discriminate.
+Qed.
